@@ -171,6 +171,16 @@ class World(object):
                         rec['asock'] = st(s)
                         rec['aconn'] = s.conn_id if s is not None else 0
                         rec['apeer'] = st(s.peer) if s is not None and s.peer is not None else 'none'
+                # for how long has a connection that this side counts as connected been silent (ground truth of the socket)
+                rec['dsilent'] = rec['asilent'] = 0
+                if self.up[d]:
+                    c = self.tr[d]._connections.get(TCPNode(self.addr[a]))
+                    if c is not None and int(c.state) == 2 and sock_of(c) is not None:
+                        rec['dsilent'] = int(2 * (self.net.now - sock_of(c).t_data))
+                if self.up[a]:
+                    c = self.tr[a]._connections.get(TCPNode(self.addr[d]))
+                    if c is not None and int(c.state) == 2 and sock_of(c) is not None:
+                        rec['asilent'] = int(2 * (self.net.now - sock_of(c).t_data))
                 rec['nlive'] = sum(1 for cid, (x, y) in self.net.conns.items()
                                    if x is not None and y is not None and x.owner == d and y.owner == a and x.state == 'est' and y.state == 'est')
                 if final:
@@ -244,6 +254,14 @@ def run_case(seed, nfaults=14):
                 else:
                     x.err = errno.ECONNRESET
             act = 'lateend'
+        elif r < 0.635:
+            # the network of one member is down for a while: its connect() calls fail at once
+            if a in w.net.netdown:
+                w.net.netdown.discard(a)
+                act = 'netup'
+            else:
+                w.net.netdown.add(a)
+                act = 'netdown'
         elif r < 0.65:
             if ro_names and rng.random() < 0.6:
                 a = rng.choice(ro_names)        # read-only nodes leave and (re-)join in any order
@@ -280,6 +298,7 @@ def run_case(seed, nfaults=14):
     # quiet period: everything healed, everybody up and a member of everybody again
     from pysyncobj.node import TCPNode
     w.net.blackhole.clear()
+    w.net.netdown.clear()
     # (keep-alive: the forgotten end of every half-open connection learns of its death by now)
     for x in w.net.socks.values():
         if x.state == 'est' and x.peer is not None and x.peer.state == 'closed' and not x.fin and not x.err:
@@ -311,7 +330,7 @@ def run_case(seed, nfaults=14):
             if n != m:
                 w.fresh[(n, m)] = any(s > base for s in w.got.get((n, m), ()))     # n received something new from m
     steps.append(w.observe('quiet-end', final=True))
-    return {'seed': seed, 'steps': steps}
+    return {'seed': seed, 'steps': steps, 'timeout2': int(round(2 * w.conf.connectionTimeout))}
 
 
 def validate(traces, workdir, label):
